@@ -1214,7 +1214,12 @@ fn lower_expr_with_args(
                         }
                     }
                     other => {
-                        if matches!(&other, cst::Expr::CallExpr(_) | cst::Expr::ClosureExpr(_)) {
+                        // a parenthesised callee is a complete expression: the argument list
+                        // applies to its value and is not handed to one of its operands
+                        if matches!(
+                            &other,
+                            cst::Expr::CallExpr(_) | cst::Expr::ClosureExpr(_) | cst::Expr::ParenExpr(_)
+                        ) {
                             let func_expr = lower_expr(ctx, other)?;
                             let call = ast::Expr::ECall {
                                 func: Box::new(func_expr),
@@ -1748,6 +1753,31 @@ fn lower_expr_with_args(
                         Some(ast::Expr::EProj {
                             tuple: Box::new(lhs),
                             index,
+                            astptr,
+                        })
+                    }
+                    // `t.0.1`: the lexer reads the two indices and the dot between them as one
+                    // float token
+                    cst::Expr::FloatExpr(float_expr) => {
+                        let indices = float_expr.value().and_then(|token| {
+                            let text = token.to_string();
+                            let (outer, inner) = text.split_once('.')?;
+                            Some((outer.parse::<usize>().ok()?, inner.parse::<usize>().ok()?))
+                        });
+                        let Some((outer, inner)) = indices else {
+                            ctx.push_error(
+                                Some(float_expr.syntax().text_range()),
+                                "Invalid tuple index",
+                            );
+                            return None;
+                        };
+                        Some(ast::Expr::EProj {
+                            tuple: Box::new(ast::Expr::EProj {
+                                tuple: Box::new(lhs),
+                                index: outer,
+                                astptr,
+                            }),
+                            index: inner,
                             astptr,
                         })
                     }
